@@ -766,7 +766,46 @@ func whitespaceNodesNotRendered(c *Ctx, gp *packages.Package) {
 		sl, ok := t.(*types.Slice)
 		return ok && types.Identical(sl.Elem(), nodeT.Type())
 	}
-	// strip functions: func([]Node) []Node in the generator whose body tests for parser.Whitespace
+	// strip functions: func([]Node) []Node in the generator whose body tests a node for the type parser.Whitespace —
+	// itself, or through a package-local predicate it calls or hands to a slices helper
+	declOf := map[types.Object]*ast.FuncDecl{}
+	for _, fd := range allFuncDecls(gp) {
+		declOf[ginfo.Defs[fd.Name]] = fd
+	}
+	isWhitespaceType := func(e ast.Expr) bool {
+		t := ginfo.TypeOf(e)
+		if pt, ok := t.(*types.Pointer); ok {
+			t = pt.Elem()
+		}
+		nt, ok := t.(*types.Named)
+		return ok && nt.Obj().Name() == "Whitespace" && nt.Obj().Pkg() != nil && strings.HasSuffix(nt.Obj().Pkg().Path(), "parser/v2")
+	}
+	var testsWhitespace func(fd *ast.FuncDecl, depth int) bool
+	testsWhitespace = func(fd *ast.FuncDecl, depth int) bool {
+		found := false
+		ast.Inspect(fd.Body, func(n ast.Node) bool {
+			switch x := n.(type) {
+			case *ast.TypeAssertExpr:
+				if x.Type != nil && isWhitespaceType(x.Type) {
+					found = true
+				}
+			case *ast.CaseClause:
+				for _, te := range x.List {
+					if tv, ok := ginfo.Types[te]; ok && tv.IsType() && isWhitespaceType(te) {
+						found = true
+					}
+				}
+			case *ast.Ident:
+				if fn, ok := ginfo.Uses[x].(*types.Func); ok && depth < 2 {
+					if d := declOf[fn]; d != nil && d != fd && d.Body != nil && testsWhitespace(d, depth+1) {
+						found = true
+					}
+				}
+			}
+			return !found
+		})
+		return found
+	}
 	strip := map[types.Object]bool{}
 	for _, fd := range allFuncDecls(gp) {
 		obj, _ := ginfo.Defs[fd.Name].(*types.Func)
@@ -777,8 +816,7 @@ func whitespaceNodesNotRendered(c *Ctx, gp *packages.Package) {
 		if sig.Params().Len() != 1 || sig.Results().Len() != 1 || !isNodeSlice(sig.Params().At(0).Type()) || !isNodeSlice(sig.Results().At(0).Type()) {
 			continue
 		}
-		txt := nodeText(c.fset, fd.Body)
-		if strings.Contains(txt, "parser.Whitespace") {
+		if testsWhitespace(fd, 0) {
 			strip[obj] = true
 		}
 	}
@@ -866,8 +904,9 @@ func whitespaceNodesNotRendered(c *Ctx, gp *packages.Package) {
 					return true
 				})
 				if id, ok := ast.Unparen(a).(*ast.Ident); ok {
-					if _, isParam := ginfo.ObjectOf(id).(*types.Var); isParam {
-						fromNode = fromNode || !isParamOf(ginfo, fd, id)
+					if _, isVar := ginfo.ObjectOf(id).(*types.Var); isVar {
+						// the function's own parameter — or a part of it (rest := nodes[1:]) — is what its caller handed it
+						fromNode = fromNode || !partOfParam(ginfo, fd, id, 0)
 					}
 				}
 				if !fromNode {
@@ -883,6 +922,55 @@ func whitespaceNodesNotRendered(c *Ctx, gp *packages.Package) {
 	}
 	c.count("child_list_render_sites", ncall)
 	c.floor("C08.R5", 6)
+}
+
+// partOfParam: e is a parameter of fd, a slice of one, or a local only ever assigned such.
+func partOfParam(info *types.Info, fd *ast.FuncDecl, e ast.Expr, depth int) bool {
+	e = ast.Unparen(e)
+	switch x := e.(type) {
+	case *ast.SliceExpr:
+		return partOfParam(info, fd, x.X, depth)
+	case *ast.Ident:
+		if isParamOf(info, fd, x) {
+			return true
+		}
+		if depth > 2 {
+			return false
+		}
+		ob := info.ObjectOf(x)
+		n, all := 0, true
+		ast.Inspect(fd.Body, func(m ast.Node) bool {
+			switch st := m.(type) {
+			case *ast.AssignStmt:
+				for i, l := range st.Lhs {
+					if lid, ok := l.(*ast.Ident); ok && info.ObjectOf(lid) == ob && ob != nil {
+						n++
+						if len(st.Lhs) != len(st.Rhs) || !partOfParam(info, fd, st.Rhs[i], depth+1) {
+							all = false
+						}
+					}
+				}
+			case *ast.ValueSpec:
+				for i, nm := range st.Names {
+					if info.Defs[nm] == ob && ob != nil {
+						n++
+						if i >= len(st.Values) || !partOfParam(info, fd, st.Values[i], depth+1) {
+							all = false
+						}
+					}
+				}
+			case *ast.RangeStmt:
+				for _, l := range []ast.Expr{st.Key, st.Value} {
+					if lid, ok := l.(*ast.Ident); ok && info.ObjectOf(lid) == ob && ob != nil {
+						n, all = n+1, false
+					}
+				}
+			}
+			return true
+		})
+		return n > 0 && all
+	}
+	return false
 }
 
 func isParamOf(info *types.Info, fd *ast.FuncDecl, id *ast.Ident) bool {
